@@ -442,6 +442,49 @@ def nesting_cases():
     return res
 
 
+VLA_IDIOMS = r'''
+int m = 3; int f(int a[][m]) { return a[1][1]; }
+int n = 3; int f(int a[n]) { return a[0] + sizeof(a); }
+int m = 3; int f(int (*a)[m]) { return a[1][1] + sizeof(*a); }
+int f(int n, int a[n]); int f(int n, int a[n]) { return a[0]; }
+int f(int n, int m, int a[n][m]) { return a[1][1]; }
+int f(int n) { typedef int T[n]; T a, b; T *p = &a; return sizeof(T) + sizeof(*p) + sizeof b; }
+int f(int n, void *v) { int (*p)[n] = (int (*)[n])v; return (*p)[1] + sizeof(*p); }
+int f(int n) { int a[n][n]; a[1][1] = 3; int (*r)[n] = a; return r[1][1] + sizeof(a) / sizeof(a[0]); }
+int f(int n) { int k = sizeof(int[n++]); return k + n; }
+int f(int n) { struct S { int x; } a[n]; a[0].x = 1; return a[0].x + sizeof a; }
+int f(int n) { for (int a[n], i = 0; i < n; i++) a[i] = i; return n; }
+int f(int n) { int a[n]; typeof(a) b; typeof(int[n]) c; return sizeof(b) + sizeof(c); }
+int f(int n) { char a[n + 1]; char (*p)[n + 1] = &a; return sizeof(*p) == sizeof a; }
+int f(int n) { int a[n]; return _Generic(&a[0], int *: 1, default: 2); }
+int g(int n, int a[n][n]); int f(int n) { int a[n][n]; return g(n, a); }
+int f(int n) { int g(int k, int b[k]); int a[n]; return g(n, a); }
+int f(int n, int m) { long a[n][m][2]; return sizeof(a[0]) + sizeof(a[0][0]) + sizeof(a[0][0][0]); }
+void *f(int n) { static int (*p)[3]; int a[n][3]; p = a; return p; }
+int f(int n) { int s = 0; for (int i = 1; i < n; i++) { int a[i]; a[0] = i; s += a[0] + sizeof a; } return s; }
+int f(int n) { int a[n]; switch (n) { case 1: return a[0] = 1; default: return sizeof a; } }
+struct S { int n; }; int f(struct S *s) { int a[s->n]; return sizeof a; }
+int f(unsigned char n) { int a[n]; return sizeof a; } int g(long n) { char a[n]; return sizeof a; } int h2(unsigned long n) { char a[n]; return sizeof a; }
+int f(int n) { int a[n][n]; int (*p)[n] = a + 1; int (*q)[n] = &a[2]; return q - p; }
+int f(int n, int (*a)[n]) { return a[1] - a[0]; }
+int f(int n, int a[n][n]) { return sizeof(a[0]) + sizeof(*a) + (a[1] - a[0]); }
+int f(int n, int a[][n]) { int (*p)[n] = a; return p[1][0]; }
+void f(int n, int a[n], int b[sizeof(a)]) { }
+void f(int n, int a[n], int (*g)(int (*)[n])) { }
+void f(int n, struct { int x[3]; } a[n]) { }
+int f(int a, int b[a], int c[sizeof b]) { return 0; }
+int f(int n, int (*(*g)(int k, int (*)[k]))[n]) { return 0; }
+int f(int n, char s[const n]) { return s[0]; }
+int f(int n, char s[static n + 1]) { return s[n]; }
+int f(int n, int a[static 3], int b[const 3], int c[restrict], int d[volatile restrict static 2]) { return a[0] + b[0] + c[0] + d[0] + n; }
+typedef int F(int); F f; int f(int x) { return x; } F g, *pg; int g(int x) { return -x; }
+typedef int F(int); int h(void) { F f; return f(1); } int f(int x) { return x; }
+double half(double), twice(double), pi = 3.0; int a1(void), *a2(void), (*a3)(void), a4; int a1(void) { return a4; }
+int f(void) { int l1(void), l2(int); return l1() + l2(2); }
+static int s1(void), s2(void); static int s1(void) { return s2(); } static int s2(void) { return 1; } extern int e1(int), e2(int);
+'''
+
+
 def valid_cases(rng, n):
     """Programs built to be valid: redeclarations with every order of storage-class specifiers, 64-bit case labels, parenthesised abstract
     declarators.  Whether each one really is valid is decided by gcc and clang (both must accept it without -w hiding an error)."""
@@ -451,8 +494,28 @@ def valid_cases(rng, n):
           'static inline int f(int);', 'int f();', 'extern int f(int x) { return x; }']
     OD = ['static int x;', 'int x;', 'extern int x;', 'int x = 1;', 'static int x = 1;', 'extern int x;', 'int x;']
     AD = ['extern int a[];', 'int a[];', 'int a[3];', 'extern int a[3];', 'int a[3] = {1, 2, 3};', 'int a[] = {1, 2, 3};', 'static int a[3];']
+    VLA = [l for l in VLA_IDIOMS.strip('\n').split('\n') if l.strip()]
+    # hand-written idioms, one per C11 feature or corner of the declaration / expression / initializer syntax (rt/valid_idioms.txt)
+    VLA += [b.strip('\n') for b in open(os.path.join(core.VERIF, 'rt', 'valid_idioms.txt')).read().split('\n----\n') if b.strip()]
     for i in range(n):
-        k = i % 6
+        k = i % 7
+        if k == 6:
+            if i // 7 < len(VLA):
+                res.append(('valid-idiom', VLA[i // 7] + '\n'))
+            else:
+                # a random parameter list in which later parameters use earlier ones in their array sizes
+                names = ['n', 'm', 'k']
+                ps = ['int n']
+                for j in range(rng.randrange(1, 4)):
+                    dims = ''.join('[%s]' % rng.choice(names[:1 + min(j, 2)] + ['', '3', 'n + 1', 'sizeof(n)', 'static n' if True else 'n']) for _ in range(rng.randrange(1, 4)))
+                    dims = dims.replace('[]', '[n]', dims.count('[]') - 1) if dims.startswith('[]') else dims.replace('[]', '[2]')
+                    dims = re.sub(r'(?<=\])\[static n\]', '[n]', dims)
+                    form = rng.choice(['%s a%d%s', '%s (*a%d)%s', '%s *a%d%s'])
+                    ps.append(form % (rng.choice(['int', 'char', 'long double', 'struct { char c[3]; }']), j, dims))
+                    if j < 2:
+                        ps.append('int %s' % names[j + 1])
+                res.append(('valid-variably-modified-type', 'long f(%s) { return sizeof(*a0) + n; }\nlong g(%s);\n' % (', '.join(ps), ', '.join(ps))))
+            continue
         if k == 0:
             ds = [rng.choice(FD) for _ in range(rng.randrange(2, 5))]
             seen = False
@@ -845,7 +908,7 @@ def run(ctx):
     # constructed valid programs: accepted by gcc and clang => must be accepted, and the assembler must take the output
     vwork = os.path.join(work, 'valid')
     os.makedirs(vwork, exist_ok=True)
-    vcases = valid_cases(rng, ctx.scale(900, 12000))
+    vcases = valid_cases(rng, ctx.scale(2800, 16000))
     seen_v = set()
     vjobs = []
     for name, text in vcases:
